@@ -15,6 +15,7 @@ RULE = ('Exhaustive: every k-mer over ACGT for k=1..8 (in blocks), every byte st
         'strings <= 200 for revcomp. Oracle: Python-int positional arithmetic and a 256-entry complement table. '
         'Every enumerated element is distinct by construction; a generated case is non-trivial when it has k >= 9 '
         'or length >= 3 (distinct by hash).')
+RULE += ' Further: k as NumPy integer for every k; first calls of fresh interpreters (plain, -O, -OO, -X dev) incl. over-long k-mers; the conversions called from 2-8 Python threads at once.'
 ASSUMPTIONS = ['index_to_kmer is only exercised with 0 <= index < 4^k (the domain of the bijection)']
 ENUMERATED = ['all 4^k k-mers for k=1..8 (87380): encode, decode, case folding, rc index, revcomp involution',
               'all byte strings of length 0..2 (65793): accepted iff all bytes in ACGTacgt; revcomp equals byte model',
